@@ -73,7 +73,15 @@ fn run_inner(h: &MarketHistory) -> Vec<Failure> {
         match op {
             MOp::CreatePlace { asset, side, vol, trader, price } => {
                 let a = *asset % A;
+                let snap = |m: &Market<A, L>| -> (Vec<(u8, u8, u64, u64, u32, u32, u32, u32, usize)>, usize, (u32, u32), u32, u32) {
+                    let b = m.get_order_book(a);
+                    (m.get_orders(a).iter().map(|o| okey(o)).collect(), b.get_trades().len(), b.bid_ask(), b.bid_vol(), b.ask_vol())
+                };
+                let before = snap(&m);
                 let r = m.create_and_place_order(a, sd(*side), *vol, *trader, *price);
+                if r.is_err() && snap(&m) != before {
+                    fail("C12.no_trace", format!("asset {}: a rejected Market::create_and_place_order (price {:?}, tick {}) changed the orders, trades or market data of the asset", a, price, h.ticks[a]));
+                }
                 let p = plain[a].create_and_place_order(sd(*side), *vol, *trader, *price);
                 match (&r, &p) {
                     (Ok(x), Ok(y)) if x.0 == a && x.1 == *y => {}
@@ -211,14 +219,14 @@ fn random_market_history(rng: &mut Xoroshiro128StarStar, len: usize, toggles: bo
         let price = match rng.gen_range(0..40) {
             0 => Some(u32::MAX),
             1 => Some(0),
-            2 => Some((20 + rng.gen_range(0..5)) * tick + 1),
+            2 | 9 | 10 => Some((20 + rng.gen_range(0..5)) * tick + 1),
             3..=8 => None,
             _ => Some((20 + rng.gen_range(0..5)) * tick),
         };
         ops.push(if r < 40 {
             MOp::CreatePlace { asset, side, vol: rng.gen_range(1..8), trader: rng.gen_range(0..3), price }
         } else if r < 46 {
-            MOp::Create { asset, side, vol: rng.gen_range(1..8), trader: 0, price }
+            MOp::Create { asset, side, vol: rng.gen_range(1..8), trader: 0, price: Some((20 + rng.gen_range(0..5)) * tick) }
         } else if r < 52 {
             MOp::Place { asset, id: rng.gen_range(0..64) }
         } else if r < 62 {
